@@ -852,6 +852,13 @@ func families(thorough bool) []family {
 		f.perms = true
 		fs = append(fs, f)
 	}
+	// DS: sibling directory names that sort between a parent and its children ('-' and '.' sort before '/'):
+	// overlap detection must not depend on the order in which directory outputs are compared
+	outsSiblings := []string{"", "dir::d", "dir::d-x", "dir::d.x", "dir::d/e", "d-x/f", "dir::dx", "d/e/f"}
+	fs = append(fs, build("dir-siblings/n3", 3, alpha{kinds: []int{kPlain}, pool: poolLower, outs: outsSiblings}))
+	if thorough {
+		fs = append(fs, build("dir-siblings/n4", 4, alpha{kinds: []int{kPlain}, pool: poolLower, outs: outsSiblings}))
+	}
 	// I: input spellings
 	for n := 1; n <= 3; n++ {
 		fs = append(fs, build(fmt.Sprintf("inputs/n%d", n), n, alpha{kinds: []int{kAlias, kPlain}, pool: poolOthers, pkgs: []int{0, 1}, ins: insFull}))
